@@ -245,6 +245,10 @@ def as_number(s, base=16):
             f = segs[0]
             if (base == 16 and f.conv in 'xX') or (base == 10 and f.conv == 'd'):
                 return f.val
+        if segs and all(isinstance(c, int) or is_symint(c) for c in segs):
+            v = ops.expansion_value(segs, base)
+            if v is not None:
+                return v
         if segs and all(isinstance(c, int) or is_symint(c) for c in segs) and base == 16:
             # explicit hex digits
             t = I(0)
@@ -252,6 +256,13 @@ def as_number(s, base=16):
                 t = t * 16 + ops.hexval(c)
             return simp(t)
     return None
+
+
+def branch(cond):
+    """spec-side case split (forks symbolically; plain bool natively)"""
+    if is_z3(cond):
+        return _CUR[0].decide(cond)
+    return bool(cond)
 
 
 _CUR = [None]
